@@ -195,6 +195,17 @@ class Case:
             return m.group(1)
         return "unclassified" if self.oracle.startswith("FAIL") else None
 
+    def fail_classes(self):
+        """every class named in the oracle message (one case can break several properties)"""
+        if not self.oracle.startswith("FAIL"):
+            return []
+        found = re.findall(r"\[(C[0-9][0-9]-[A-Za-z0-9_.-]+)\]", self.oracle)
+        out = []
+        for c in found:
+            if c not in out:
+                out.append(c)
+        return out or ["unclassified"]
+
 
 DEFS = {}
 
@@ -406,24 +417,30 @@ def check(pid, tier, seed):
         known_classes.setdefault(k["class"], []).append(k)
     all_failing = [c for c in cases if c.oracle.startswith("FAIL")]
     # an oracle failure is judged by the check of the property its class names (C10-..., C05-...)
-    failing = [c for c in all_failing if (c.fail_class() or "").startswith(pid) or c.fail_class() == "unclassified"]
+    def own(c):
+        return [x for x in c.fail_classes() if x.startswith(pid) or x == "unclassified"]
+    failing = [c for c in all_failing if own(c)]
     foreign = {}
     for c in all_failing:
-        if c not in failing:
-            foreign[c.fail_class()] = foreign.get(c.fail_class(), 0) + 1
+        for x in c.fail_classes():
+            if not (x.startswith(pid) or x == "unclassified"):
+                foreign[x] = foreign.get(x, 0) + 1
     kf_hits = {}
     new_fail = []
     for c in failing:
-        cls = c.fail_class()
-        if cls in known_classes and c.id not in mism_ids:
-            kf_hits.setdefault(cls, []).append(c)
+        classes = own(c)
+        # suppressed only when every class of this property in the message is a listed finding and the model agrees
+        if all(x in known_classes for x in classes) and c.id not in mism_ids:
+            for x in classes:
+                kf_hits.setdefault(x, []).append(c)
         else:
             new_fail.append(c)
     for cls, entries in known_classes.items():
         hits = kf_hits.get(cls, [])
         for k in entries:
             wit = k.get("witness")
-            if any(h.id.split(':', 1)[-1] == wit for h in hits) or (wit is None and hits):
+            # every listed finding is reported on every run, with the number of cases of its class met this time
+            if True:
                 known_lines.append("KNOWN-FINDING: property=%s %s [class %s, witness %s, %d case(s) of this class in this run]"
                                    % (pid, k["what"], cls, wit, len(hits)))
 
